@@ -19,9 +19,9 @@ Proof. exact ordered_matching_no_panic. Qed.
 Print Assumptions C12_ordering_never_panics.
 
 Theorem C12_invariant_preserved_by_node_items :
-  forall po lab canp apisame held m cached reread outs m' r fx,
-  MapInv m -> (forall n, cached = Some n -> wf_node n) ->
-  sync_node po lab canp apisame held m cached reread outs = (m', r, fx) -> MapInv m'.
+  forall po lab svcs canp apisame held m cached reread outs m' r fx,
+  MapInv m -> Forall wf_cidr svcs -> (forall n, cached = Some n -> wf_node n) ->
+  sync_node po lab svcs canp apisame held m cached reread outs = (m', r, fx) -> MapInv m'.
 Proof. exact sync_node_inv. Qed.
 
 Theorem C12_invariant_preserved_by_clustercidr_items :
@@ -73,8 +73,8 @@ Print Assumptions C12_unusable_hostbits_rejected.
 
 (* a node work item never panics, in any state with the structural invariant and unique keys ... *)
 Theorem C12_node_items_never_panic :
-  forall po lab canp apisame held m cached reread outs,
-  MapInv m -> KU m -> snd (fst (sync_node po lab canp apisame held m cached reread outs)) <> Panic.
+  forall po lab svcs canp apisame held m cached reread outs,
+  MapInv m -> KU m -> snd (fst (sync_node po lab svcs canp apisame held m cached reread outs)) <> Panic.
 Proof. exact sync_node_no_panic. Qed.
 Print Assumptions C12_node_items_never_panic.
 
